@@ -407,7 +407,7 @@ int main(void) {
     curop = line;
     n = vh_split(line, tok, 64);
     if (n == 0 || tok[0][0] == '#') continue;
-    alarm(10);
+    alarm(15);
     if (!strcmp(tok[0], "def") && n >= 3 && !strcmp(tok[2], "hex") && n == 4) {
       blob_t *b = blob_new(tok[1]); size_t hl = strlen(tok[3]); long r;
       if (!b) { puts("bad-op"); fflush(stdout); continue; }
